@@ -248,6 +248,14 @@ class HistGen:
         form, payload = self._ins_payload(cid, fail)
         return [name, cid, key, inst, form, payload]
 
+    MECHS = ["method", "copy.copy", "deepcopy", "pickle0", "pickle1",
+             "pickle2", "pickle3", "pickle4", "pickle5"]
+
+    def g_copy(self, cid, mc, fail):
+        nid = self.new_id()
+        self.tops = tuple(self.tops) + (nid,)
+        return ["copy", cid, self.rng.choice(self.MECHS), nid]
+
     def g_insert_before(self, cid, mc, fail):
         return self._rel("insert_before", cid, mc, fail)
 
